@@ -21,7 +21,7 @@ clockmod.time = lambda: REAL[0]      # scripted real-time source (the module doe
 HALF = Fraction(1, 2)
 OPS = [('start',), ('stop',), ('speed', 0), ('speed', HALF), ('speed', 1), ('speed', 2),
        ('set', 0), ('set', 1), ('set', -1), ('real', 1), ('real', 3)]
-DEPTH = {'quick': 8, 'thorough': 10}
+DEPTH = {'quick': 8, 'thorough': 11}
 
 
 class RefClock:
@@ -156,7 +156,7 @@ def explore(prefix, depth):
 # execute_once call started.
 SYNC_OPS = [('adv', 1), ('adv', 2), ('step', 'L'), ('step', 'F'), ('step', 'G'), ('qstep', 'L'),
             ('qstep', 'F'), ('qstep', 'G')]
-SYNC_DEPTH = {'quick': 8, 'thorough': 10}
+SYNC_DEPTH = {'quick': 8, 'thorough': 11}
 
 _SYNC_CHART = None
 
